@@ -10,9 +10,11 @@ import re
 
 import vlib
 
-PREFIX = {"id": "id: ", "kv": "k=", "k": "", "tag": ""}
+PREFIX = {"id": "id: ", "kv": "k=", "k": "", "tag": "", "ide": "id:"}
 GROUP_RE = r"id: (?P<value>[^ ]+)"
 PLAIN_RE = r"k=[^ ]+"
+STAR_RE = r"id:(?P<value>[^ ]*)"      # the group may be empty: "id:" alone, or "id: x" (the group stops at the space)
+PAT_RE = {"group": GROUP_RE, "plain": PLAIN_RE, "gstar": STAR_RE}
 LP = {"lower": "^[a-z]+$", "digit": "[0-9]", "startx": "^x", "min3": "^.{3,}$", "any": ".*", "lower0": "^[a-z]*$", "optx": "^(x.*)?$"}
 CODE = {"sorted": "keep-sorted", "unique": "keep-unique", "pattern": "line-pattern", "count": "line-count"}
 
@@ -41,6 +43,9 @@ def key_span(l, pat):
     elif pat == "group":
         t = key_text(l["key"])
         start = l["indent"] + len(PREFIX["id"])
+    elif pat == "gstar":
+        t = key_text(l["key"]) if l["form"] == "ide" else ""
+        start = l["indent"] + len(PREFIX["ide"])
     else:
         t = PREFIX["kv"] + key_text(l["key"])
         start = l["indent"]
@@ -51,17 +56,15 @@ def attrs_for(cfg):
     k = cfg["kind"]
     if k == "sorted":
         a = ' keep-sorted' if cfg["sp"] == "" and cfg.get("bare") else ' keep-sorted="%s"' % cfg["sp"]
-        if cfg["pat"] == "group":
-            a += ' keep-sorted-pattern="%s"' % GROUP_RE
-        elif cfg["pat"] == "plain":
-            a += ' keep-sorted-pattern="%s"' % PLAIN_RE
+        if cfg["pat"] in PAT_RE:
+            a += ' keep-sorted-pattern="%s"' % PAT_RE[cfg["pat"]]
         if cfg["fmt"] == "num":
             a += ' keep-sorted-format="numeric"'
         return a
     if k == "unique":
         if cfg["pat"] == "none":
             return " keep-unique"
-        return ' keep-unique="%s"' % (GROUP_RE if cfg["pat"] == "group" else PLAIN_RE)
+        return ' keep-unique="%s"' % PAT_RE[cfg["pat"]]
     if k == "pattern":
         return ' line-pattern="%s"' % LP[cfg["lp"]]
     if k == "count":
@@ -103,6 +106,19 @@ def render(case, layout="line", pre_lines=0):
         lines = [line_text(l, "/* <block name=\"n%d\"> </block> */" % j) for j, l in enumerate(block)]
         text = pre + "/* <block\n   name=\"ml\"\n  %s> */\n" % attrs + "".join(t + "\n" for t in lines) + "/* </block> */\n"
         return "f.rs", text, (lambda j: pre_lines + 3 + j)
+    if layout == "twin":
+        # the block nested in an outer block that carries the same rule: where the outer block's extra lines (the inner
+        # tags) are harmless for the rule, both blocks report the same line with the same code and range
+        lines = [line_text(l, "# <block name=\"n%d\"> </block>" % j) for j, l in enumerate(block)]
+        text = pre + "# <block name=\"outer0\"%s>\n# <block name=\"inner\"%s>\n" % (attrs, attrs) + "".join(t + "\n" for t in lines) + \
+            "# </block>\n# </block>\n"
+        return "f.py", text, (lambda j: pre_lines + 2 + j), (pre_lines + 2, pre_lines + 2 + len(lines))
+    if layout == "combo":
+        # the block carries a second, unrelated rule as well (its diagnostics are not this property's business)
+        extra = ' keep-unique' if cfg["kind"] in ("sorted", "count") else ' keep-sorted'
+        lines = [line_text(l, "# <block name=\"n%d\"> </block>" % j) for j, l in enumerate(block)]
+        text = pre + "# <block%s%s>\n" % (extra, attrs) + "".join(t + "\n" for t in lines) + "# </block>\n"
+        return "f.py", text, (lambda j: pre_lines + 1 + j)
     if layout == "same":
         text = pre + "# <block%s> </block>\n" % attrs
         return "f.py", text, (lambda j: pre_lines + 1)
@@ -121,13 +137,13 @@ def selfcheck_line(l, pat):
     text = line_text(l)
     if pat == "none":
         return
-    rx = re.compile(GROUP_RE if pat == "group" else PLAIN_RE)
+    rx = re.compile(PAT_RE[pat])
     m = rx.search(text)
-    want = (l["form"] == "id") if pat == "group" else (l["form"] == "kv")
+    want = {"group": l["form"] == "id", "plain": l["form"] == "kv", "gstar": l["form"] in ("id", "ide")}[pat]
     if bool(m) != want:
         raise vlib.ToolError("concretiser self-check: %r under %s" % (text, pat))
     if m:
-        got = m.group("value") if pat == "group" else m.group(0)
+        got = m.group("value") if pat in ("group", "gstar") else m.group(0)
         if got != key_span(l, pat)[1]:
             raise vlib.ToolError("concretiser self-check: key of %r under %s: %r" % (text, pat, got))
 
@@ -149,6 +165,9 @@ def judge(case, res, text, line_of, layout, span=None):
         alld = [d for d in alld if span[0] <= d["range"]["start"]["line"] <= span[1]]
     diags = [d for d in alld if d["code"] == code]
     other = [d for d in alld if d["code"] != code]
+    if layout == "combo":
+        other = []          # the second rule on the block reports what it likes
+    need = 2 if layout == "twin" else 1
     if other:
         return "bad", "unexpected diagnostics %s" % [d["code"] for d in other]
     if exp["v"] == "ok":
@@ -156,8 +175,10 @@ def judge(case, res, text, line_of, layout, span=None):
             return "bad", "expected no violation, got %s" % (json.dumps(diags)[:300])
         return "ok", None
     # expected violation
-    if len(diags) != 1:
-        return "bad", "expected exactly one %s violation for the block at lines %s, got %d" % (code, span, len(diags))
+    if len(diags) != need:
+        return "bad", "expected exactly %d %s violation(s) for the block at lines %s, got %d" % (need, code, span, len(diags))
+    if need == 2 and diags[0]["range"] != diags[1]["range"]:
+        return "bad", "nested twin blocks report different places: %s vs %s" % (diags[0]["range"], diags[1]["range"])
     if res["exit"] != 1:
         return "bad", "violation reported but exit=%s" % res["exit"]
     d = diags[0]
@@ -179,7 +200,7 @@ def judge(case, res, text, line_of, layout, span=None):
         col, ktext = key_span(l, cfg["pat"] if cfg["kind"] != "pattern" else "none")
         fl = text.split("\n")[want_line - 1].encode()
         got = fl[d["range"]["start"]["character"] - 1:d["range"]["end"]["character"]].decode("utf-8", "replace")
-        if got != ktext:
+        if got != ktext and ktext != "":      # (how an empty key is delimited is left to the implementation)
             return "bad", "range designates %r, offending key is %r" % (got, ktext)
     return "ok", None
 
@@ -193,6 +214,7 @@ def replay(chk, cases, layouts=("line",), cli_sample=0, trace=False, label=""):
     meta = {}      # file case id -> list of (case, line_of, layout, span)
     concs = {}
     texts = {}
+    companions = {}
     n = 0
     for layout in layouts:
         group, gtext, glines = [], "", 0
@@ -202,7 +224,15 @@ def replay(chk, cases, layouts=("line",), cli_sample=0, trace=False, label=""):
             if not group:
                 return
             cid = "%s%s-%d" % (label, layout, len(batch))
-            ext = "py" if layout in ("line", "same") else "rs"
+            ext = "py" if layout in ("line", "same", "twin", "combo") else "rs"
+            # a companion block of ANOTHER validator that always violates: several validators report on one file
+            kind = group[0][0]["cfg"]["kind"]
+            comp_code = "line-count" if kind in ("unique", "sorted") else "keep-unique"
+            comp_rule = ' line-count="<1"' if comp_code == "line-count" else " keep-unique"
+            op, cl = ("# ", "") if ext == "py" else ("/* ", " */")
+            comp_line = glines + 1
+            gtext += "%s<block name=\"companion\"%s>%s\ncompanion\ncompanion\n%s</block>%s\n" % (op, comp_rule, cl, op, cl)
+            companions[cid] = (comp_code, comp_line, comp_line + 3)
             conc = {"id": cid, "files": {"f." + ext: gtext}, "diff": None, "args": [], "terminal": True}
             batch.append(conc)
             meta[cid] = group
@@ -213,15 +243,19 @@ def replay(chk, cases, layouts=("line",), cli_sample=0, trace=False, label=""):
         for ci, case in enumerate(cases):
             if layout == "same" and case["block"]:
                 continue
+            if layout == "twin" and not (case["cfg"]["kind"] == "unique" or (case["cfg"]["kind"] == "pattern" and case["cfg"]["lp"] == "digit")):
+                continue        # the inner tags must be harmless lines for the outer block's rule
             for l in case["block"]:
                 selfcheck_line(l, case["cfg"]["pat"])
             pre = ci % 3
-            name, text, line_of = render(case, layout, pre)
+            rendered = render(case, layout, pre)
+            name, text, line_of = rendered[:3]
             nl = text.count("\n")
             if case["expect"]["v"] == "gray":
                 flush()
             off = glines
-            group.append((case, (lambda j, lo=line_of, o=off: lo(j) + o), layout, (off + 1, off + nl)))
+            span = (off + 1, off + nl) if len(rendered) < 4 else (off + rendered[3][0], off + rendered[3][1])
+            group.append((case, (lambda j, lo=line_of, o=off: lo(j) + o), layout, span))
             gtext += text
             glines += nl
             n += 1
@@ -239,18 +273,24 @@ def replay(chk, cases, layouts=("line",), cli_sample=0, trace=False, label=""):
             if status == "gray":
                 chk.gray += 1
                 pred = case["impl"]["v"]
-                obs = "err" if res["outcome"] == "error" else ("viol" if res["exit"] == 1 else "ok")
+                mine = [d for ds in (res.get("report") or {}).values() for d in ds
+                        if d["code"] == CODE[case["cfg"]["kind"]] and span[0] <= d["range"]["start"]["line"] <= span[1]]
+                obs = "err" if res["outcome"] == "error" else ("viol" if mine else "ok")
                 if pred != obs:
                     chk.drift += 1
             elif status == "bad":
                 chk.violation(detail, {"abstract": case, "concrete": concs[cid], "block_lines": span,
                                        "expected": case["expect"],
                                        "observed": {k: res.get(k) for k in ("outcome", "exit", "report", "error")}})
-        # exit status of the file as a whole: 1 iff some block violates (all default severity)
-        if res["outcome"] == "ok" and all(c["expect"]["v"] != "gray" for c, _, _, _ in group):
-            want = 1 if any(c["expect"]["v"] == "viol" for c, _, _, _ in group) else 0
-            if res["exit"] != want:
-                chk.violation("exit status %s, expected %s" % (res["exit"], want), {"concrete": concs[cid]})
+        # the companion block (another validator, same file) is reported exactly once, and the run fails
+        if res["outcome"] == "ok":
+            ccode, c0, c1 = companions[cid]
+            cd = [d for ds in (res["report"] or {}).values() for d in ds if d["code"] == ccode and c0 <= d["range"]["start"]["line"] <= c1]
+            if len(cd) != 1:
+                chk.violation("the %s block next to the blocks under test yields %d diagnostics (several validators reporting on one file)" % (
+                    ccode, len(cd)), {"concrete": concs[cid], "observed": {k: res.get(k) for k in ("outcome", "exit", "report")}})
+            if res["exit"] != 1:
+                chk.violation("exit status %s with a violating block in the file" % res["exit"], {"concrete": concs[cid]})
     # CLI sample
     if cli_sample:
         ids = sorted(meta)
